@@ -689,7 +689,7 @@ func runC05(c *Ctx) {
 				c.Check(okD, "O5.7", fk(g)+":close-deferred-before-run", cl.Pos(), "instance.Run must be dominated by `defer <same instance>.Close()`")
 			})
 		}
-		c.Floor("O5.7", "instance.Run call sites", n, 2)
+		c.Floor("O5.7", "instance.Run call sites", n, 1)
 		// the gun is closed BEFORE the instance's result is published: the function that arms `defer Close`
 		// must not itself send the run result (a deferred call runs after the send: the awaiter would count the
 		// instance as finished, and Engine.Run / Wait could return, while the gun is still being closed)
@@ -728,7 +728,7 @@ func runC05(c *Ctx) {
 			c.Check(len(sends) == 0, "O5.7", fk(g)+":gun-closed-before-the-result-is-published", arm.Pos(),
 				fmt.Sprintf("the function that defers instance.Close() also sends the instance's run result (%d send(s)): the deferred Close runs after the send", len(sends)))
 		}
-		c.Floor("O5.7", "functions arming defer instance.Close()", nArm, 2)
+		c.Floor("O5.7", "functions arming defer instance.Close()", nArm, 1)
 		// Close: type-assert to io.Closer comma-ok, Close called on ok edge
 		var ta *ssa.TypeAssert
 		EachInstr(instClose, func(in ssa.Instruction) {
